@@ -102,6 +102,7 @@ def main(argv=None):
     ap.add_argument('--workers', type=int, default=int(os.environ.get('VERIF_WORKERS', '16')))
     ap.add_argument('--only', default=None, help='substring filter on query names (debugging)')
     ap.add_argument('--no-evidence', action='store_true')
+    ap.add_argument('--cap', type=int, default=None, help='time cap in seconds (debugging)')
     args = ap.parse_args(argv)
     if args.prop == 'setup':
         return setup()
@@ -109,7 +110,7 @@ def main(argv=None):
         return 0
     seed = int(os.environ.get('VERIF_SEED', '0') or 0)
     tier = args.tier if args.tier in ('quick', 'thorough') else 'quick'
-    return run_check(args.prop.upper(), tier, seed, args.workers, args.only, not args.no_evidence)
+    return run_check(args.prop.upper(), tier, seed, args.workers, args.only, not args.no_evidence, args.cap)
 
 
 def setup():
@@ -118,13 +119,16 @@ def setup():
         dump_mir(f, d)
     nb = build_native('default')
     build_native('default', release=True)
+    for s in ('nodefault', 'pt', 'serde'):
+        build_native(s)
+    build_native('serde', release=True)
     unicode_tables(nb, d)
     import z3
     print('setup ok: z3', z3.get_version_string())
     return 0
 
 
-def run_check(pid, tier, seed, workers, only, write_evidence):
+def run_check(pid, tier, seed, workers, only, write_evidence, cap=None):
     t0 = time.time()
     mod = importlib.import_module('props.' + pid.lower())
     digest = source_digest()
@@ -137,17 +141,19 @@ def run_check(pid, tier, seed, workers, only, write_evidence):
         mf = dump_mir(fset, digest)
         mir_files[fset] = mf
         progs[fset] = load_program(mf, os.path.join(REPO, 'purl', 'src'), FEATURE_SETS[fset][1])
-    native_bin = build_native('default')
-    native_rel = build_native('default', release=True)
-    os.environ['MIRSYM_UNICODE'] = unicode_tables(native_bin, digest)
+    nset = getattr(mod, 'NATIVE', 'default')
+    native_bin = build_native(nset)
+    native_rel = build_native(nset, release=True)
+    os.environ['MIRSYM_UNICODE'] = unicode_tables(native_bin if nset == 'default' else build_native('default'), digest)
     native = E.Native(native_bin)
     native_r = E.Native(native_rel)
+    extra_natives = {s: E.Native(build_native(s)) for s in getattr(mod, 'NATIVE_SETS', [])}
     queries = mod.queries(tier)
     if only:
         queries = [q for q in queries if only in q.name]
     caps = getattr(mod, 'TIME_CAP', {'quick': 900, 'thorough': 7200})
     results = E.explore(progs, queries, workers=workers, seed=seed, budget=400, replay_cap=(30 if tier == 'quick' else 10 ** 9),
-                        time_cap=caps[tier])
+                        time_cap=cap or caps[tier])
     inconclusive = []
     # ---- engine health
     for r in results:
@@ -167,6 +173,17 @@ def run_check(pid, tier, seed, workers, only, write_evidence):
             mismatches.append({'query': qn, 'request': rq, 'diff': d[:4]})
         else:
             validated += 1
+    for sname, nat in extra_natives.items():
+        # the same witnesses on the oracle built with another feature set
+        resp2 = nat.run([rq for _, rq, _ in replays])
+        for (qn, rq, ex), got in zip(replays, resp2):
+            if 'unsupported' in got:
+                continue        # this API does not exist under that feature set
+            d = E.subset_match(ex, got)
+            if d:
+                mismatches.append({'query': qn + ' [features ' + sname + ']', 'request': rq, 'diff': d[:4]})
+            else:
+                validated += 1
     for mm in mismatches[:5]:
         inconclusive.append('ENGINE-MISMATCH %s: %s (request %s)' % (mm['query'], '; '.join(mm['diff']), json.dumps(mm['request'])))
     # ---- counterexamples: confirm on the real crate (dev and release), classify
@@ -180,7 +197,11 @@ def run_check(pid, tier, seed, workers, only, write_evidence):
         if key in seen:
             continue
         seen.add(key)
-        ca, cb = mod.confirm(v, a), mod.confirm(v, b)
+        if extra_natives:
+            others = {s: nat.run([rq])[0] for s, nat in extra_natives.items()}
+            ca, cb = mod.confirm_multi(v, a, others), None
+        else:
+            ca, cb = mod.confirm(v, a), mod.confirm(v, b)
         if ca or cb:
             confirmed.append({'query': qn, 'label': v['label'], 'request': rq, 'what': ca or cb,
                               'dev': bool(ca), 'release': bool(cb), 'role': mod.finding_role(v, a)})
